@@ -15,21 +15,21 @@ PROP = 'C01'
 LEVEL = 'exploration'
 SHARDS = {'quick': 4, 'thorough': 16}
 BUDGET_S = {'quick': 150, 'thorough': 420}
-RULE = ('seeded random histories of OMD operations (1-60 ops quick, to 200 thorough) over 6 keys / 6 '
-        'values with argument shapes list/tuple/one-shot iterator/dict/OMD/self/kwargs and iterables that raise '
+RULE = ('seeded random histories of OMD operations (1-60 ops quick, to 200 thorough) over 8 keys / 8 '
+        'values (1, 1.0 and True among the keys; 0, False, 1, 1.0 among the values: equal but distinct objects) with argument shapes list/tuple/one-shot iterator/dict/OMD/self/kwargs and iterables that raise '
         'part-way (the mapping must then be unchanged or hold the prefix, all reads agreeing); after every op '
         'the full read vector is compared with a list-of-pairs model; distinct = distinct model '
         'states (pair lists) reached with >= 2 pairs and a repeated key')
 ASSUMPTIONS = [
-    'keys and values come from a small pool of hashable str/int/None/tuple objects (repeats dominate)',
+    'keys and values come from a small pool of hashable str/int/float/bool/None/tuple objects (repeats dominate); reads are compared with ==, repr() with the exact text',
     'popitem may remove any key (pop or poplast semantics); update_extend(self) is not generated '
     '(the statement is silent on it)',
     'sort keys are total (repr-based) so tie order is unobservable',
 ]
 
-KEYS = {'ka': 'a', 'kb': 'b', 'kc': 'c', 'k1': 1, 'kN': None, 'kT': (1, 2)}
+KEYS = {'ka': 'a', 'kb': 'b', 'kc': 'c', 'k1': 1, 'kN': None, 'kT': (1, 2), 'k1f': 1.0, 'kTrue': True}
 STR_KEYS = ['ka', 'kb', 'kc']
-VALS = {'v0': 0, 'v1': 1, 'v2': 2, 'vx': 'x', 'vN': None, 'vT': (0, 1)}
+VALS = {'v0': 0, 'v1': 1, 'v2': 2, 'vx': 'x', 'vN': None, 'vT': (0, 1), 'v1f': 1.0, 'vF': False}
 ABSENT = 'zz-absent'
 _NO = '<nodefault>'
 
